@@ -20,14 +20,14 @@ VARIABLES i, bad
 vars == <<i, bad>>
 
 CheckCase(o) ==
-    {[id |-> o.id, clause |-> "Bisect.result", q |-> o.qs[k], got |-> o.res[k], want |-> Bisect(o.a, o.qs[k])]
+    {[id |-> o.id, clause |-> "C17.Bisect.result", q |-> o.qs[k], got |-> o.res[k], want |-> Bisect(o.a, o.qs[k])]
         : k \in {k \in 1..Len(o.qs) : o.res[k] # Bisect(o.a, o.qs[k])}}
-    \cup (IF StrictlyIncreasing(o.a) THEN {} ELSE {[id |-> o.id, clause |-> "Bisect.precondition", q |-> 0, got |-> 0, want |-> 0]})
-    \cup (IF Len(o.res) = Len(o.qs) THEN {} ELSE {[id |-> o.id, clause |-> "Bisect.shape", q |-> 0, got |-> Len(o.res), want |-> Len(o.qs)]})
+    \cup (IF StrictlyIncreasing(o.a) THEN {} ELSE {[id |-> o.id, clause |-> "C17.Bisect.precondition", q |-> 0, got |-> 0, want |-> 0]})
+    \cup (IF Len(o.res) = Len(o.qs) THEN {} ELSE {[id |-> o.id, clause |-> "C17.Bisect.shape", q |-> 0, got |-> Len(o.res), want |-> Len(o.qs)]})
 
 Coverage ==
     IF In.exhaustive
-    THEN {[id |-> -1, clause |-> "Bisect.coverage", q |-> 0, got |-> 0, want |-> 0] : v \in
+    THEN {[id |-> -1, clause |-> "C17.Bisect.coverage", q |-> 0, got |-> 0, want |-> 0] : v \in
             {v \in Range(In.variants) :
                 \/ {Cases[k].a : k \in {k \in 1..Len(Cases) : Cases[k].variant = v}} # Arrays
                 \/ \E k \in 1..Len(Cases) : Cases[k].variant = v /\ Range(Cases[k].qs) # Queries}}
